@@ -157,7 +157,12 @@ func EnumLayout(r *mon.Rng, lits []string, layout string) EnumText {
 			if r.Chance(1, 12) { // empty comments
 				return mon.Pick(r, []string{"//", "// ", "//\t ", "/**/", "/* */"}), ""
 			}
-			switch r.Intn(5) {
+			switch r.Intn(6) {
+			case 5: // a comment closed by **/ (stars next to the closing marker belong to the text)
+				if r.Bool() {
+					return "/** " + body + " **/", "* " + body + " *"
+				}
+				return "/* " + body + " **/", body + " *"
 			case 0: // multi-line comment on one line
 				return "/* " + body + " */", body
 			case 1: // multi-line comment over two lines
@@ -493,6 +498,13 @@ func RegexPattern(r *mon.Rng, o RegexOpts) RegexCase {
 		}
 		if r.Chance(1, 12) {
 			pat = "(?i)" + pat
+		}
+		if r.Chance(1, 8) {
+			// a named group in either spelling (the pattern text must stay as written)
+			pat = mon.Pick(r, []string{"(?<part>", "(?P<part>", "(?<a1>"}) + pat + ")"
+			if r.Bool() {
+				pat += mon.Pick(r, []string{"-(?<n>\\d{2})", "(?P<tail>x?)"})
+			}
 		}
 		if len(pat) == 0 || len(pat) > 60 {
 			continue
